@@ -35,18 +35,6 @@ pub fn insert(state: &mut RuntimeState, ident: Option<&Ident>, data: Value) -> (
         },
 { unimplemented!() }
 
-impl Str {
-    #[verifier::external_body]
-    pub fn to_owned(&self) -> (r: Str) ensures r == *self { unimplemented!() }
-    #[verifier::external_body]
-    pub fn into_value(self) -> (r: Value) { unimplemented!() }
-}
-impl KeyString {
-    #[verifier::external_body]
-    pub fn clone(&self) -> (r: KeyString) ensures r == *self { unimplemented!() }
-    #[verifier::external_body]
-    pub fn into_value(self) -> (r: Value) { unimplemented!() }
-}
 #[verifier::external_body]
 pub fn usize_into_value(i: usize) -> (r: Value) { unimplemented!() }
 
